@@ -457,7 +457,9 @@ fn connack_policy(w: &mut World, conn: usize, clean_start: bool, need_id: bool) 
         return;
     }
 
-    let session_expires = w.cfg.session_expiry == 0;
+    // (a broker that overrode the Session Expiry Interval with 0 on the previous connection has
+    // dropped the session when that connection ended)
+    let session_expires = w.cfg.session_expiry == 0 || std::mem::replace(&mut w.broker_session_expiry_zero, false);
     let mut sp = !clean_start && w.broker_has_session && !session_expires;
     if sp && chance(w, t, 6, w.cfg.p_session_loss) {
         sp = false;
@@ -516,6 +518,37 @@ fn connack_policy(w: &mut World, conn: usize, clean_start: bool, need_id: bool) 
     if let Some(v) = ska {
         props.push(Prop { id: 0x13, val: PVal::U16(v) });
     }
+    // informational properties a broker may add to any CONNACK: none of them changes what the
+    // client is asked to do (C05: it still asks to resume next time, also when the broker cut
+    // the Session Expiry Interval down to 0 - the broker will then simply report no session)
+    if !benign && small && pick(w, t, 20, 2) == 1 {
+        let n = 1 + pick(w, t, 21, 3);
+        for i in 0..n {
+            let q = t ^ (0x1F0 + i as u64);
+            let pr = match pick(w, q, 22, 9) {
+                0 => {
+                    let v = [0u32, 0, 1, 3600, u32::MAX][pick(w, q, 23, 5) as usize];
+                    if v == 0 {
+                        w.broker_session_expiry_zero = true;
+                        w.probe("connack_session_expiry_zero");
+                    }
+                    Prop { id: 0x11, val: PVal::U32(v) }
+                }
+                1 => Prop { id: 0x25, val: PVal::Byte(pick(w, q, 23, 2) as u8) },
+                2 => Prop { id: 0x22, val: PVal::U16([0u16, 5, 65535][pick(w, q, 23, 3) as usize]) },
+                3 => Prop { id: 0x1F, val: PVal::Str("ok".into()) },
+                4 => Prop { id: 0x26, val: PVal::Pair("k".into(), "v".into()) },
+                5 => Prop { id: 0x28, val: PVal::Byte(pick(w, q, 23, 2) as u8) },
+                6 => Prop { id: 0x29, val: PVal::Byte(pick(w, q, 23, 2) as u8) },
+                7 => Prop { id: 0x2A, val: PVal::Byte(pick(w, q, 23, 2) as u8) },
+                _ => Prop { id: 0x1A, val: PVal::Str("resp/info".into()) },
+            };
+            if pr.id == 0x26 || !props.iter().any(|x| x.id == pr.id) {
+                props.push(pr);
+            }
+        }
+        w.probe("connack_informational_properties");
+    }
     let mut assigned = None;
     if assign {
         let id = format!("assigned-{}", conn);
@@ -536,6 +569,7 @@ fn connack_policy(w: &mut World, conn: usize, clean_start: bool, need_id: bool) 
             0x24 => mq = None,
             0x13 => ska = None,
             0x12 => assigned = None,
+            0x11 => w.broker_session_expiry_zero = false,
             _ => {}
         }
     }
